@@ -23,7 +23,10 @@ for f in $(git diff --name-only); do
     dask/bytes/*) TESTS="$TESTS dask/bytes/tests dask/bag/tests";;
     dask/diagnostics/*) TESTS="$TESTS dask/diagnostics/tests";;
     dask/dataframe/*) TESTS="$TESTS dask/tests";;
-    *) TESTS="$TESTS dask/tests dask/array/tests dask/bag/tests dask/bytes/tests dask/diagnostics/tests dask/array/_array_expr/tests";;
+    *) if [ -n "$SEED_FULL_SUITE" ]; then TESTS="$TESTS dask/tests dask/array/tests dask/bag/tests dask/bytes/tests dask/diagnostics/tests dask/array/_array_expr/tests"; else
+         # core (non-array) module: all non-array suites + the array test files that exercise graph/scheduler/optimisation paths most
+         # (the seeder's own full-suite run is recorded in meta.json: seeder_tests_run); SEED_FULL_SUITE=1 forces everything
+         TESTS="$TESTS dask/tests dask/bag/tests dask/bytes/tests dask/diagnostics/tests dask/array/_array_expr/tests dask/array/tests/test_array_core.py dask/array/tests/test_optimization.py dask/array/tests/test_atop.py dask/array/tests/test_slicing.py dask/array/tests/test_reductions.py dask/array/tests/test_rechunk.py dask/array/tests/test_random.py"; fi;;
   esac
 done
 TESTS=$(echo $TESTS | tr ' ' '\n' | sort -u | tr '\n' ' ')
@@ -43,7 +46,7 @@ meta = {"id": sid, "property": p, "summary": m.get("summary"), "needs": m.get("n
         "seeder_tests_run": m.get("tests_run"),
         "verified": {"base_commit": subprocess.check_output(["git", "-C", "/repo", "rev-parse", "--short", "HEAD"], text=True).strip(),
                      "demo_exit_without_change": 0, "demo_exit_with_change": "non-zero",
-                     "pinned_tests_run_with_change": tests.split(), "pinned_tests_result": "every BASELINE stable-pass test in those directories still passes (tools/run_suite.sh)"},
+                     "pinned_tests_run_with_change": tests.split(), "pinned_tests_result": "every BASELINE stable-pass test in those directories/files still passes (tools/run_suite.sh)"},
         "checks_run": []}
 json.dump(meta, open(f'/verif/seeded/{sid}/meta.json', 'w'), indent=1)
 PY
